@@ -177,6 +177,11 @@ def run_case(kind, case):
 
 def seq_ops(job):
     """pubkey() / sign() / verify() in every order for an odd-y and an even-y key, valid and wrong-length verifications"""
+    if job.get("name", "").startswith("seqreal"):
+        # secp256k1 itself: signing with secret-key pairs that a too-coarse memo key cannot tell apart (vf/classes.py)
+        from vf.classes import twin_secret_keys
+        return [("sign", {"sk": k.to_bytes(32, "big").hex(), "msg": b"twin".hex(), "aux": "00" * 32, "token": "5a" * 32, "twin": nm})
+                for nm, a, b in twin_secret_keys(S.n) for k in (a, b)]
     cv = job["curve"]
     C = smallcurve.curve(cv)
     odd = next(d for d in range(2, C.n) if C.mul(d, C.G)[1] % 2)
@@ -238,6 +243,7 @@ def jobs(tier, seed):
             js.append({"name": f"secp/flips/{b}/{sh}", "part": "flips", "base": b, "shard": [sh, 16], "weight": 10})
     from vf.runner import seq_jobs
     js += seq_jobs(4, curve=list(T[0]), weight=4)
+    js += seq_jobs(2, weight=6, name="seqreal")
     from vf.runner import concur_jobs
     js += concur_jobs(len(CONCUR_SCEN) - (1 if tier == "quick" else 0), curve=list(T[0]))
     for i in range(3):
